@@ -37,8 +37,8 @@ func main() {
 		fmt.Println("usage: cvssmc <id> quick|thorough | cvssmc replay <file>; ids:", ids)
 		os.Exit(2)
 	}
-	if os.Args[1] == "hist-pristine" {
-		histPristineMain(os.Args[2])
+	if os.Args[1] == "hist-entry" {
+		histEntryMain(os.Args[2:])
 		return
 	}
 	if os.Args[1] == "replay" {
